@@ -1,4 +1,5 @@
 import Inkayaku.Proofs.SearchDepth1
+import Inkayaku.Proofs.WfStepProof
 import Inkayaku.Model.FenBoard
 /-!
 # C07 — every search is answered by exactly one legal bestmove
@@ -15,8 +16,8 @@ Model: `Inkayaku.Search.goCmd`.  All theorems quantify over every state `s` (pol
 "near-zero time" are instances.  `goCmd` is a total function: the modelled search cannot crash; hanging is excluded up
 to the model's iteration bound `maxIter` (the engine's own bound is 999 999 iterations) and the recursion fuel.
 
-Hypotheses: `BoardLaws` (= H2', the budgeted well-formedness step; H1 is proved — see C09 and `Proofs/WfStep.lean`) and
-`Inv (goBudget maxIter) s.board`: the position held is well-formed and its clocks leave room for the deepest line the
+Hypotheses: the board laws H1 and H2' are PROVED (`Search.unmake_make_of_generated`, `Search.boardLaws` — see C09); what
+remains is the side condition `Inv (goBudget maxIter) s.board`: the position held is well-formed and its clocks leave room for the deepest line the
 search can reach (`wf s.board`, `halfmove + maxIter + 201 ≤ 4095`, `fullmove + maxIter + 201 < 2^31`; real limits of the
 engine: the 12-bit undo field of the half-move clock).  The transposition-table invariant `TTRootFresh` (no entry deep enough to
 answer the root) is PROVED for every iteration of every `go` (`Search.iters_legal`).
@@ -38,39 +39,39 @@ theorem go_exactly_one_bestmove (s : St) (g : GoParams) (maxIter : Nat) (h0 : s.
 
 /-- **the bestmove is legal in the position held and is one of `searchmoves` when given**
 (`LegalRoot b sm m` = `m ∈ genPseudo b ∧ isValid (make b m) ∧ (sm ≠ [] → m.uci ∈ sm)`) -/
-theorem bestmove_legal (L : BoardLaws) (s : St) (g : GoParams) (maxIter : Nat) (hwf : Inv (goBudget maxIter) s.board)
+theorem bestmove_legal (s : St) (g : GoParams) (maxIter : Nat) (hwf : Inv (goBudget maxIter) s.board)
     (m : Move) (ponder : Option Move) (rest : List Out)
     (h : (goCmd s g maxIter).out = .bestMove (some m) ponder :: rest) :
     m ∈ genPseudo s.board ∧ isValid (make s.board m) = true ∧ (g.searchMoves ≠ [] → m.uci ∈ g.searchMoves) := by
   rw [goCmd_eq] at h
   have hb : bestMoveOf (goDeepen s g maxIter).1 = some m := by
     have := (List.cons.inj h).1; injection this
-  exact go_bestmove_legal L s g maxIter hwf m hb
+  exact go_bestmove_legal boardLaws s g maxIter hwf m hb
 
 /-- the root search of every iteration returns a legal move or none, for every iteration of every `go`
 (this is where `TTRootFresh` is discharged) -/
-theorem every_iteration_legal (L : BoardLaws) (s : St) (g : GoParams) (maxIter : Nat) (hwf : Inv (goBudget maxIter) s.board)
+theorem every_iteration_legal (s : St) (g : GoParams) (maxIter : Nat) (hwf : Inv (goBudget maxIter) s.board)
     (r : VM × St) (hr : r ∈ goIterations s g maxIter) (m : Move) (hm : r.1.mv = some m) :
     LegalRoot s.board g.searchMoves m :=
-  iters_legal L s.board g.searchMoves _ (goPrep s g) 1 _ none none
+  iters_legal boardLaws s.board g.searchMoves _ (goPrep s g) 1 _ none none
     (Inv_mono (by have := goIters_le g maxIter; unfold fuelFor goBudget; omega) hwf) (by rw [goPrep_board])
     (goPrep_searchMoves s g) (Nat.le_refl 1) (goPrep_ttBound s g) r hr m hm
 
 /-- a root search that is not answered from the transposition table returns `none` or a legal move of the
 (searchmoves-filtered) buffer -/
-theorem root_move_from_buffer (L : BoardLaws) (fuel : Nat) (s : St) (maxPly : Nat) (α β : Int) (isPv : Bool)
+theorem root_move_from_buffer (fuel : Nat) (s : St) (maxPly : Nat) (α β : Int) (isPv : Bool)
     (hash ph : UInt64) (hwf : Inv fuel s.board) (hpos : 0 < maxPly) (hfresh : TTRootFresh s hash maxPly) (m : Move)
     (hm : (negamax fuel s 0 maxPly α β isPv hash ph).1.mv = some m) :
     m ∈ genPseudo s.board ∧ (s.go.searchMoves ≠ [] → m.uci ∈ s.go.searchMoves) ∧ isValid (make s.board m) = true := by
-  obtain ⟨h1, h2⟩ := Search.root_move_from_buffer L fuel s maxPly α β isPv hash ph hwf hpos hfresh m hm
+  obtain ⟨h1, h2⟩ := Search.root_move_from_buffer boardLaws fuel s maxPly α β isPv hash ph hwf hpos hfresh m hm
   obtain ⟨h3, h4⟩ := mem_rootBuffer_zero h1
   exact ⟨h3, h4, h2⟩
 
 /-- **no legal move (among `searchmoves`): the answer is the null move, without ponder move** -/
-theorem nolegal_null (L : BoardLaws) (s : St) (g : GoParams) (maxIter : Nat) (hwf : Inv (goBudget maxIter) s.board) (h0 : s.out = [])
+theorem nolegal_null (s : St) (g : GoParams) (maxIter : Nat) (hwf : Inv (goBudget maxIter) s.board) (h0 : s.out = [])
     (hno : ∀ m, ¬ LegalRoot s.board g.searchMoves m) :
     ∃ infos, (goCmd s g maxIter).out = .bestMove none none :: infos ∧ bestMoves infos = [] := by
-  obtain ⟨infos, h, hb⟩ := go_nolegal_null L s g maxIter hwf hno
+  obtain ⟨infos, h, hb⟩ := go_nolegal_null boardLaws s g maxIter hwf hno
   rw [h0, List.append_nil] at h
   exact ⟨infos, h, hb⟩
 
@@ -84,20 +85,20 @@ theorem nolegal_null (L : BoardLaws) (s : St) (g : GoParams) (maxIter : Nat) (hw
 list of the position is shorter than the poll period (the engine's is 100 000), no node of iteration 1 polls the
 flags, so — whatever waits in the channel, whatever the time limit — iteration 1 ends with the stop flag clear and
 the channel untouched.  (`goPrep s g` is the state in which iteration 1 starts, `rootSearch · 1` its root search.) -/
-theorem depth1_not_interrupted (L : BoardLaws) (s : St) (g : GoParams) (hwf : Inv (fuelFor 1) s.board)
+theorem depth1_not_interrupted (s : St) (g : GoParams) (hwf : Inv (fuelFor 1) s.board)
     (hpoll : (genPseudo s.board).length < s.pollPeriod) :
     (rootSearch (goPrep s g) 1).2.stop = false ∧ (rootSearch (goPrep s g) 1).2.pending = s.pending :=
-  Search.depth1_not_interrupted L s g hwf hpoll
+  Search.depth1_not_interrupted boardLaws s g hwf hpoll
 
 /-- `depth1_completes`, reduced to the value-range hypothesis `HorizonBelowWin` (every depth-1 child search of the
 position, started between two polls with an empty table and window `[lossScore, β]`, `β ≤ winScore`, returns a value
 `< winScore`): **a position with a legal move never gets the null move**, under any limit and any interruption -/
-theorem depth1_completes_partial (L : BoardLaws) (s : St) (g : GoParams) (maxIter : Nat) (hwf : Inv (fuelFor 1) s.board)
+theorem depth1_completes_partial (s : St) (g : GoParams) (maxIter : Nat) (hwf : Inv (fuelFor 1) s.board)
     (hiter : 1 ≤ maxIter) (hpoll : (genPseudo s.board).length < s.pollPeriod)
     (hlegal : ∃ m, LegalRoot s.board g.searchMoves m)
     (hval : HorizonBelowWin s.board (fuelFor 1 - 1)) (h0 : s.out = []) :
     ∃ m ponder infos, (goCmd s g maxIter).out = .bestMove (some m) ponder :: infos := by
-  have hne := Search.depth1_completes_partial L s g maxIter hwf hiter hpoll hlegal hval
+  have hne := Search.depth1_completes_partial boardLaws s g maxIter hwf hiter hpoll hlegal hval
   obtain ⟨news, h, -, -⟩ := goCmd_out s g maxIter
   rw [h0, List.append_nil] at h
   cases hb : bestMoveOf (goDeepen s g maxIter).1 with
@@ -109,7 +110,7 @@ theorem depth1_completes_partial (L : BoardLaws) (s : St) (g : GoParams) (maxIte
 
 /- TARGET (not yet proved): the answer is never the null move when a legal move exists.
 
-   theorem depth1_completes (L : BoardLaws) (s : St) (g : GoParams) (maxIter : Nat) (hwf : Inv (fuelFor 1) s.board)
+   theorem depth1_completes (s : St) (g : GoParams) (maxIter : Nat) (hwf : Inv (fuelFor 1) s.board)
        (hiter : 1 ≤ maxIter)
        (hpoll : 219 < s.pollPeriod)                                   -- the engine polls every 100 000 nodes
        (hlegal : ∃ m, LegalRoot s.board g.searchMoves m) (h0 : s.out = []) :
